@@ -1,5 +1,5 @@
 (* C19 proofs. *)
-From MJ Require Import Common.Base Lang.Syntax Lang.Interp C19.Model C19.Spec.
+From MJ Require Import Common.Base Lang.Syntax Lang.Interp C19.Model C19.Partial C19.PartialProofs C19.Spec.
 
 (* ---- takeZ / skipZ ---- *)
 Lemma takeZ_skipZ {A} (l : list A) : forall n, takeZ n l ++ skipZ n l = l.
@@ -361,4 +361,33 @@ Proof.
   destruct (monitor (sinkf sc) 0 (nonempty (rev (s_out s)))) as [d res] eqn:Em. destruct Hm as (Hdel & _).
   destruct (monitor_prefix_proof _ _ _ _ _ Em) as (rest & Hr & _).
   exists (length d). rewrite Hdel, Hr, firstn_app, Nat.sub_diag, firstn_all. cbn. now rewrite app_nil_r.
+Qed.
+
+(* ---- renders that fail for a reason of their own ---- *)
+Lemma render_to_sink_p_ok c fuel body split wr sc s :
+  run c fuel body = Ok s -> render_to_sink_p c fuel body split wr sc = render_to_sink c fuel body split wr sc.
+Proof.
+  intros H. unfold render_to_sink_p, render_to_sink. pose proof (run_partial_agrees_proof c fuel body) as Ha. rewrite H in Ha.
+  destruct (run_partial c fuel body) as [s'| | |]; cbn in Ha; try discriminate. inversion Ha; subst. rewrite H. reflexivity.
+Qed.
+
+Lemma run_partial_err c fuel body code out : run_partial c fuel body = PErr code out -> run c fuel body = Err code.
+Proof. intros H. rewrite <- run_partial_agrees_proof, H. reflexivity. Qed.
+
+Lemma sink_failing_render_proof c fuel body split wr sc code out log e :
+  split_ok split -> run_partial c fuel body = PErr code out ->
+  render_to_sink_p c fuel body split wr sc = Ok (log, e) ->
+  (exists rest, delivered log ++ rest = concat (rev out) /\
+     ((forall cl, In cl log -> call_fails cl = None) -> rest = [] /\ e = Some (MkErr code NoSrc))) /\
+  (forall l1 cl l2 k, log = l1 ++ cl :: l2 -> call_fails cl = Some k ->
+     l2 = [] /\ e = Some (MkErr E_WriteFailure (IoSrc k))).
+Proof.
+  intros Hs Hp H. unfold render_to_sink_p in H. rewrite Hp in H.
+  destruct (drive sc (flat_map split (rev out))) as [l r] eqn:Ed. inversion H; subst. clear H.
+  pose proof (drive_log_ok _ _ _ _ Ed) as Hlog. split.
+  - destruct (drive_prefix _ _ _ _ Ed) as (rest & Hr & Hn). rewrite concat_flat_map_split in Hr by auto.
+    exists rest. split; auto. intros Hnone. destruct r as [k|].
+    + exfalso. destruct (log_ok_some _ _ Hlog) as (l1 & cl & El & Hc). subst log. rewrite Hnone in Hc; [discriminate|]. apply in_or_app. right. now left.
+    + split; auto.
+  - intros l1 cl l2 k Hl Hc. destruct (log_ok_stops _ _ Hlog _ _ _ _ Hl Hc) as [-> ->]. auto.
 Qed.
